@@ -1,8 +1,10 @@
 import GormModel.Drv.Util
 import GormModel.Model.Limit
 import GormModel.Model.Batches
+import GormModel.Model.ReadPaths
 open Lean
 namespace Gorm.Drv
+namespace HC15
 
 def parseLimCalls (j : Json) : Option (List LimCall) := do
   let a ← jArr? j
@@ -15,6 +17,59 @@ def parseLimCalls (j : Json) : Option (List LimCall) := do
     | "offset" => some (LimCall.offset n)
     | _ => none
 
+def parseNats (j : Json) : Option (List Nat) := do
+  let a ← jArr? j
+  a.toList.mapM jNat?
+
+/-- units: `[[isOr, [ids satisfying the member]], …]` -/
+def parseUnits (j : Json) : Option (List WUnit) := do
+  let a ← jArr? j
+  a.toList.mapM fun u => do
+    let p ← jArr? u
+    let o ← jBool? (arg p 0)
+    let ids ← parseNats (arg p 1)
+    some { isOr := o, sat := fun k => ids.contains k }
+
+/-- order columns: `[[tag, desc, [[id, rank], …]], …]` -/
+def parseOrder (j : Json) : Option (List OrdCol) := do
+  let a ← jArr? j
+  a.toList.mapM fun c => do
+    let p ← jArr? c
+    let tag ← jNat? (arg p 0)
+    let d ← jBool? (arg p 1)
+    let m ← jArr? (arg p 2)
+    let kv ← m.toList.mapM fun e => do
+      let q ← jArr? e
+      let id ← jNat? (arg q 0)
+      let r ← jInt? (arg q 1)
+      some (id, r)
+    some { key := fun k => (kv.lookup k).getD 0, desc := d, tag := tag }
+
+def queriesJ (qs : List BatchQuery) : Json :=
+  Json.arr (qs.map fun q => Json.arr #[Json.num (JsonNumber.fromInt q.limit), optIntJ q.offset,
+    match q.cursor with | some c => natJ c | none => Json.null]).toArray
+
+def batchOutJ (out : BatchOut) (find : List Nat) : Json :=
+  Json.mkObj [
+    ("batches", Json.arr (out.batches.map natListJ).toArray),
+    ("queries", queriesJ out.queries),
+    ("find", natListJ find),
+    ("ra", Json.num (JsonNumber.fromInt out.rowsAffected)),
+    ("fuel", Json.bool out.outOfFuel),
+    ("pk", Json.bool out.pkRequired)]
+
+def readOutJ (o : ReadOut) : Json :=
+  Json.mkObj [("rows", natListJ o.rows), ("ra", Json.num (JsonNumber.fromInt o.rowsAffected)),
+    ("nf", Json.bool o.notFound)]
+
+def shapeJ (c : Chain) : Json :=
+  let (ord, l, o) := c.shape
+  Json.mkObj [("ord", Json.arr (ord.map fun (t, d) => Json.arr #[natJ t, Json.bool d]).toArray),
+    ("lim", optIntJ l), ("off", optIntJ o)]
+
+end HC15
+open HC15
+
 def handleC15 (op : String) (args : Array Json) : Option Json := do
   match op with
   | "limit.merge" =>
@@ -22,17 +77,35 @@ def handleC15 (op : String) (args : Array Json) : Option Json := do
     let st := applyCalls none cs
     some (Json.arr #[optIntJ (effLimitOf st), optIntJ (effOffsetOf st)])
   | "batches" =>
-    let rowsJ ← jArr? (arg args 1)
-    let rows ← rowsJ.toList.mapM jNat?
+    let rows ← parseNats (arg args 1)
     let cs ← parseLimCalls (arg args 2)
     let b ← jInt? (arg args 3)
     let st := applyCalls none cs
     let out := findInBatches rows st b (rows.length + 2)
+    some (batchOutJ out (findAll rows st))
+  | "batchesW" =>
+    let tbl ← parseNats (arg args 1)
+    let us ← parseUnits (arg args 2)
+    let ord ← parseOrder (arg args 3)
+    let cs ← parseLimCalls (arg args 4)
+    let b ← jInt? (arg args 5)
+    let fuel ← jNat? (arg args 6)
+    let st := applyCalls none cs
+    let out := findInBatchesW tbl us ord st b fuel
+    some (batchOutJ out (findAllW tbl us ord st))
+  | "paths" =>
+    let tbl ← parseNats (arg args 1)
+    let us ← parseUnits (arg args 2)
+    let ord ← parseOrder (arg args 3)
+    let cs ← parseLimCalls (arg args 4)
+    let c : Chain := { units := us, order := ord, lim := applyCalls none cs }
     some (Json.mkObj [
-      ("batches", Json.arr (out.batches.map natListJ).toArray),
-      ("find", natListJ (findAll rows st)),
-      ("fuel", Json.bool out.outOfFuel),
-      ("pk", Json.bool out.pkRequired)])
+      ("find", readOutJ (c.find tbl)), ("first", readOutJ (c.first tbl)), ("last", readOutJ (c.last tbl)),
+      ("take", readOutJ (c.take tbl)), ("scan1", readOutJ (c.scanOne tbl)),
+      ("count", natJ (c.count tbl)),
+      ("matching", natListJ (c.matching tbl)),
+      ("shape", Json.mkObj [("find", shapeJ c), ("first", shapeJ c.firstChain), ("last", shapeJ c.lastChain),
+        ("take", shapeJ c.takeChain), ("count", shapeJ c.countChain), ("afterCount", shapeJ c.afterCount)])])
   | _ => none
 
 end Gorm.Drv
